@@ -3,8 +3,8 @@ K = 'github.com/ProjectSerenity/firefly/kernel'
 
 PROP = {
     'pkg': K + '/device/video/console',
-    'tests': [{'name': 'TestVerifC19Fb', 'checks_quick': 24000, 'checks_thorough': 1200000},
-              {'name': 'TestVerifC19Text', 'checks_quick': 16000, 'checks_thorough': 600000, 'shards_quick': 2}],
+    'tests': [{'name': 'TestVerifC19Fb', 'checks_quick': 120000, 'checks_thorough': 4000000},
+              {'name': 'TestVerifC19Text', 'checks_quick': 60000, 'checks_thorough': 2000000, 'shards_quick': 2}],
     'rule': 'rapid generates a console and an op list (1..25 / 1..30 ops) over Write(ch,fg,bg,x,y), Fill(x,y,w,h,fg,bg), '
             'Scroll(dir,lines); every x/y/width/height/line-count argument is drawn relative to the grid edge from {0, 1, '
             'edge-1, edge, edge+1, 2^31, 2^32-1, 2^32-1-k (wraps a 32-bit sum back into the grid), 2^31+-1, any uint32, '
